@@ -239,8 +239,9 @@ def guards(rep, u):
     ok = sh and wt and rl and fd.pos_dominates(sh[0], wt[0]) and all(fd.pos_dominates(wt[0], r) for r in rl)
     (rep.proved if ok else rep.violated)("R-MPT", fd, "shutdown-wait-release", "tp_destroy requests shutdown, waits for the threads, and only then releases")
     # a failed wait does not release
+    res_ids = core.result_locals(fd, {"tp_shutdown_wait"})
     r_mpt.check_guard(rep, fd, "tp_shutdown_wait()==0",
-                      lambda x, ps: (x.get("k") == "ref" and x["n"] == "error") or (x.get("k") == "call" and x.get("fn") == "tp_shutdown_wait"),
+                      lambda x, ps: (x.get("k") == "ref" and x.get("id") in res_ids) or (x.get("k") == "call" and x.get("fn") == "tp_shutdown_wait"),
                       (0, 16), (0,), targets=rl, target_desc="release", require_dominance=True)
     return n + 2
 
@@ -284,7 +285,8 @@ def hooks(rep, u):
         ok = fc.pos_dominates(first, st[0])
         # error edge of the first init cannot reach the hook
         gd = False
-        for bid, c, atom in r_mpt.branches_with(fc, lambda x, ps: x.get("k") == "ref" and x["n"] == "error"):
+        st_ids = core.result_locals(fc, {"tpt_data_init", "tpt_data_event_init", "tp_thread_attach_first", "tpt_msg_queue_create", "tp_threads_create"})
+        for bid, c, atom in r_mpt.branches_with(fc, lambda x, ps: x.get("k") == "ref" and x.get("id") in st_ids):
             if fc.dominates(first[0], bid) and fc.dominates(bid, st[0][0]):
                 s, kn = r_mpt.edge_for_value(fc, bid, c, atom, 22)
                 if kn and not r_mpt.can_reach(fc, s, [st[0]], avoid=[bid]):
@@ -486,7 +488,8 @@ def run(rep, tier):
     un = [pos for pos, root, c, ps in fi.calls({"tpt_data_uninit"})]
     ok = False
     if ev and un:
-        for bid, c, atom in r_mpt.branches_with(fi, lambda x, ps: x.get("k") == "ref" and x["n"] == "error"):
+        ev_ids = core.result_locals(fi, {"tpt_data_event_init"})
+        for bid, c, atom in r_mpt.branches_with(fi, lambda x, ps: x.get("k") == "ref" and x.get("id") in ev_ids):
             s1, k1 = r_mpt.edge_for_value(fi, bid, c, atom, 22)
             s0, k0 = r_mpt.edge_for_value(fi, bid, c, atom, 0)
             if k1 and k0 and r_mpt.can_reach(fi, s1, un, avoid=[bid]) and not r_mpt.can_reach(fi, s0, un, avoid=[bid]):
